@@ -171,6 +171,9 @@ func (d *duplexHTTPCall) CloseRead() error {
 	}
 	verifYield(d.ctx, "closeread.discard")
 	if err := discard(d.response.Body); err != nil {
+		// Reading the rest of the body failed, but the body still has to be
+		// closed or the transport never releases the stream.
+		_ = d.response.Body.Close()
 		return wrapIfRSTError(err)
 	}
 	verifYield(d.ctx, "closeread.close")
